@@ -304,3 +304,478 @@ Proof.
     + rewrite (legalR_spec d rh _ j b W H). reflexivity.
     + rewrite legalR_none by assumption. reflexivity.
 Qed.
+
+(* ------------------------------------------------------------------ *)
+(* Part 6: personal histories, first namer, end of auction              *)
+(* ------------------------------------------------------------------ *)
+
+Lemma seat_beq_sym : forall a b, seat_beq a b = seat_beq b a.
+Proof. destruct a, b; reflexivity. Qed.
+
+Lemma pick_from_snoc : forall d p h c i,
+  pick_from d p (h ++ [c]) i =
+  pick_from d p h i ++ (if seat_beq (caller d (i + length h)) p then [c] else []).
+Proof.
+  induction h as [|x r IH]; intros c i.
+  - cbn [app pick_from length]. rewrite Nat.add_0_r. destruct (seat_beq _ _); reflexivity.
+  - cbn [app pick_from length]. rewrite IH. rewrite Nat.add_succ_r. cbn [Nat.add].
+    destruct (seat_beq (caller d i) p); reflexivity.
+Qed.
+
+Lemma pick_cons_r : forall d q rh c,
+  rev (pick d q (rev (c :: rh))) =
+  if seat_beq q (rot d (length rh)) then c :: rev (pick d q (rev rh)) else rev (pick d q (rev rh)).
+Proof.
+  intros. unfold pick. cbn [rev]. rewrite pick_from_snoc. cbn [Nat.add]. rewrite rev_length.
+  unfold caller. rewrite (seat_beq_sym q). destruct (seat_beq _ _).
+  - rewrite rev_unit. reflexivity.
+  - rewrite app_nil_r. reflexivity.
+Qed.
+
+Definition names (c : call) (st : strain) : bool :=
+  match c with Bid _ s' => strain_beq s' st | _ => false end.
+
+Lemma first_namer_from_snoc : forall d sd st h c j,
+  first_namer_from d sd st (h ++ [c]) j =
+  match first_namer_from d sd st h j with
+  | Some x => Some x
+  | None => if side_beq (side_of (caller d (j + length h))) sd && names c st
+            then Some (caller d (j + length h)) else None end.
+Proof.
+  induction h as [|x r IH]; intros c j.
+  - cbn [app first_namer_from length]. rewrite Nat.add_0_r. reflexivity.
+  - cbn [app first_namer_from length]. rewrite IH. rewrite Nat.add_succ_r. cbn [Nat.add].
+    destruct (_ && _); reflexivity.
+Qed.
+
+Lemma first_namer_cons_r : forall d sd st rh c,
+  first_namer d sd st (rev (c :: rh)) =
+  match first_namer d sd st (rev rh) with
+  | Some x => Some x
+  | None => if side_beq (side_of (rot d (length rh))) sd && names c st
+            then Some (rot d (length rh)) else None end.
+Proof.
+  intros. unfold first_namer. cbn [rev]. rewrite first_namer_from_snoc. cbn [Nat.add].
+  rewrite rev_length. reflexivity.
+Qed.
+
+Definition finc (rh : list call) : bool :=
+  (3 <=? length rh) && match rh with Pass :: Pass :: _ => true | _ => false end.
+
+Lemma no4 : forall d rest, wf d (Pass :: Pass :: Pass :: Pass :: rest) ->
+  ended_r (Pass :: Pass :: Pass :: Pass :: rest) = false -> False.
+Proof.
+  induction rest as [|z rest IH]; intros W E.
+  - discriminate.
+  - destruct W as (_ & E' & W').
+    destruct z; try discriminate E'. exact (IH W' E').
+Qed.
+
+Lemma finc_ended : forall d rh, wf d rh -> ended_r rh = false -> finc rh = ended_r (Pass :: rh).
+Proof.
+  intros d rh W E.
+  destruct rh as [|[] [|[] [|x rest]]]; try reflexivity.
+  destruct x; try reflexivity.
+  destruct rest as [|y rest]; [reflexivity|].
+  exfalso. destruct y; try discriminate E. exact (no4 d rest W E).
+Qed.
+
+Lemma ended_cons_pass : forall c rh, ended_r (c :: rh) = true -> c = Pass.
+Proof. intros c rh H. destruct c; try discriminate. reflexivity. Qed.
+
+(* ------------------------------------------------------------------ *)
+(* Part 7: the invariant                                                *)
+(* ------------------------------------------------------------------ *)
+
+Record Inv (d : seat) (v : vul) (s : astate) : Prop := mkInv {
+  I_dealer : dealer s = d;
+  I_vul : avul s = v;
+  I_wf : wf d (rhist s);
+  I_active : active s = if ended_r (rhist s) then None else Some (rot d (length (rhist s)));
+  I_lb : last_bid s = option_map snd (last_bid_r (rhist s));
+  I_lbr : last_bidder s = option_map (fun x => rot d (fst x)) (last_bid_r (rhist s));
+  I_cx : called_x s = cxr (rhist s);
+  I_cxx : called_xx s = cxxr (rhist s);
+  I_avlen : length (avail s) = 38;
+  I_av : ended_r (rhist s) = false -> forall i, i < 38 -> nth i (avail s) false = aspec d (rhist s) i;
+  I_tab : forall sd st, decl_tab s sd st = first_namer d sd st (rev (rhist s));
+  I_ph : forall q, rphist s q = rev (pick d q (rev (rhist s)))
+}.
+
+Lemma Inv_init : forall d v, Inv d v (init d v).
+Proof.
+  intros d v. constructor; try reflexivity; try exact I.
+  intros _ i Hi. cbn [init avail rhist].
+    do 38 (destruct i as [|i]; [reflexivity|]). lia.
+Qed.
+
+Lemma Inv_active_some : forall d v s p, Inv d v s -> active s = Some p ->
+  ended_r (rhist s) = false /\ p = rot d (length (rhist s)).
+Proof.
+  intros d v s p I H. rewrite (I_active d v s I) in H.
+  destruct (ended_r (rhist s)); [discriminate|]. inversion H. auto.
+Qed.
+
+Lemma Inv_avail_legal : forall d v s c, Inv d v s -> active s <> None ->
+  nth (call_idx c) (avail s) false = legal d (rev (rhist s)) c.
+Proof.
+  intros d v s c I H.
+  destruct (active s) as [p|] eqn:A; [|congruence].
+  destruct (Inv_active_some d v s p I A) as [E _].
+  rewrite (I_av d v s I E _ (call_idx_lt c)).
+  apply aspec_legal. exact (I_wf d v s I).
+Qed.
+
+Lemma aspec_nonbid : forall d rh c i, is_bid c = false -> i < 36 -> aspec d (c :: rh) i = aspec d rh i.
+Proof.
+  intros d rh c i B Hi. unfold aspec.
+  assert (last_bid_r (c :: rh) = last_bid_r rh) as -> by (destruct c; [discriminate|reflexivity..]).
+  destruct (i <? 35) eqn:H1; [reflexivity|].
+  apply Nat.ltb_ge in H1. assert (i = 35) by lia. subst i. reflexivity.
+Qed.
+
+Lemma fin_finc : forall s, fin s Pass = finc (rhist s).
+Proof. reflexivity. Qed.
+
+Lemma Inv_finish : forall d v s p c, Inv d v s -> active s = Some p ->
+  nth (call_idx c) (avail s) false = true -> fin s c = true ->
+  Inv d v (push_call s p c None).
+Proof.
+  intros d v s p c I A L F.
+  destruct (Inv_active_some d v s p I A) as [E Hp].
+  assert (c = Pass) by (destruct c; try discriminate F; reflexivity). subst c.
+  rewrite fin_finc in F. rewrite (finc_ended d _ (I_wf d v s I) E) in F.
+  constructor; cbn [push_call dealer avul active last_bid last_bidder called_x called_xx rhist rphist decl_tab avail].
+  - apply (I_dealer d v s I).
+  - apply (I_vul d v s I).
+  - cbn [wf]. split; [|split; [exact E | exact (I_wf d v s I)]].
+    rewrite legal_rev. reflexivity.
+  - rewrite F. reflexivity.
+  - apply (I_lb d v s I).
+  - apply (I_lbr d v s I).
+  - apply (I_cx d v s I).
+  - apply (I_cxx d v s I).
+  - apply (I_avlen d v s I).
+  - intros E'. congruence.
+  - intros sd st. rewrite first_namer_cons_r. rewrite <- (I_tab d v s I).
+    cbn [names]. rewrite andb_false_r. destruct (decl_tab s sd st); reflexivity.
+  - intros q. rewrite pick_cons_r. rewrite <- (I_ph d v s I). rewrite Hp. reflexivity.
+Qed.
+
+Lemma ended_step : forall d s c, wf d (rhist s) -> ended_r (rhist s) = false ->
+  fin s c = false -> ended_r (c :: rhist s) = false.
+Proof.
+  intros d s c W E F. destruct c; try reflexivity.
+  rewrite fin_finc in F. rewrite <- (finc_ended d _ W E). exact F.
+Qed.
+
+Lemma Inv_step : forall d v s p c, Inv d v s -> active s = Some p ->
+  nth (call_idx c) (avail s) false = true -> fin s c = false ->
+  Inv d v (step s p c).
+Proof.
+  intros d v s p c I A L F.
+  destruct (Inv_active_some d v s p I A) as [E Hp].
+  assert (LG : legal d (rev (rhist s)) c = true).
+  { rewrite <- (Inv_avail_legal d v s c I); [exact L | congruence]. }
+  pose proof (ended_step d s c (I_wf d v s I) E F) as E2.
+  constructor.
+  - rewrite step_dealer. apply (I_dealer d v s I).
+  - rewrite step_avul. apply (I_vul d v s I).
+  - rewrite step_rhist. cbn [wf]. split; [exact LG | split; [exact E | exact (I_wf d v s I)]].
+  - rewrite step_active, step_rhist, E2. cbn [length rot]. rewrite Hp. reflexivity.
+  - rewrite step_last_bid, step_rhist. destruct c; cbn [last_bid_r option_map snd]; try apply (I_lb d v s I). reflexivity.
+  - rewrite step_last_bidder, step_rhist. destruct c; cbn [last_bid_r option_map fst]; try apply (I_lbr d v s I).
+    rewrite Hp. reflexivity.
+  - rewrite step_called_x, step_rhist. destruct c; try reflexivity; apply (I_cx d v s I).
+  - rewrite step_called_xx, step_rhist. destruct c; try reflexivity; apply (I_cxx d v s I).
+  - rewrite step_avail. cbv zeta. destruct (last_bidder (step s p c)); rewrite ?length_set_nth;
+      destruct c; rewrite ?length_zero_prefix; apply (I_avlen d v s I).
+  - intros _ i Hi. rewrite step_avail, step_rhist. cbv zeta.
+    rewrite step_last_bidder, step_called_x, step_called_xx.
+    pose proof (I_avlen d v s I) as AL.
+    pose proof (I_av d v s I E) as AV.
+    destruct c as [l st| | |].
+    + rewrite !nth_set_nth, !length_set_nth, length_zero_prefix, nth_zero_prefix, AL.
+      change (37 <? 38) with true. change (36 <? 38) with true. rewrite !andb_true_r.
+      pose proof (call_idx_bid_lt l st) as K.
+      assert (i = 37 \/ i = 36 \/ i = 35 \/ i < 35) as [->|[->|[->|Hlt]]] by lia.
+      * reflexivity.
+      * rewrite Hp. reflexivity.
+      * change (35 =? 37) with false. change (35 =? 36) with false. cbv iota.
+        destruct (35 <? call_idx (Bid l st) + 1) eqn:Q; [apply Nat.ltb_lt in Q; lia|].
+        rewrite AV by lia. reflexivity.
+      * replace (i =? 37) with false by (symmetry; apply Nat.eqb_neq; lia).
+        replace (i =? 36) with false by (symmetry; apply Nat.eqb_neq; lia).
+        rewrite AV by lia. unfold aspec. cbn [last_bid_r].
+        replace (i <? 35) with true by (symmetry; apply Nat.ltb_lt; lia).
+        rewrite legal_rev in LG.
+        destruct (i <? call_idx (Bid l st) + 1) eqn:Q.
+        -- apply Nat.ltb_lt in Q. symmetry. apply Nat.ltb_ge. lia.
+        -- apply Nat.ltb_ge in Q.
+           replace (call_idx (Bid l st) <? i) with true by (symmetry; apply Nat.ltb_lt; lia).
+           destruct (last_bid_r (rhist s)) as [[j [l' s']]|]; [|reflexivity].
+           rewrite outranks_idx in LG. apply Nat.ltb_lt in LG. apply Nat.ltb_lt. lia.
+    + rewrite (I_lbr d v s I), (I_cx d v s I), (I_cxx d v s I).
+      destruct (last_bid_r (rhist s)) as [[j b]|] eqn:LB; cbn [option_map fst].
+      * rewrite !nth_set_nth, !length_set_nth, AL.
+        change (37 <? 38) with true. change (36 <? 38) with true. rewrite !andb_true_r.
+        assert (i = 37 \/ i = 36 \/ i < 36) as [->|[->|Hlt]] by lia.
+        -- unfold aspec. cbn [Nat.ltb Nat.leb Nat.eqb last_bid_r]. rewrite LB, Hp. reflexivity.
+        -- unfold aspec. cbn [Nat.ltb Nat.leb Nat.eqb last_bid_r]. rewrite LB, Hp. reflexivity.
+        -- replace (i =? 37) with false by (symmetry; apply Nat.eqb_neq; lia).
+           replace (i =? 36) with false by (symmetry; apply Nat.eqb_neq; lia).
+           rewrite aspec_nonbid by (auto; lia). apply AV; lia.
+      * rewrite AV by lia. unfold aspec. cbn [last_bid_r]. rewrite LB. reflexivity.
+    + rewrite (I_lbr d v s I), (I_cxx d v s I).
+      destruct (last_bid_r (rhist s)) as [[j b]|] eqn:LB; cbn [option_map fst].
+      * rewrite !nth_set_nth, !length_set_nth, AL.
+        change (37 <? 38) with true. change (36 <? 38) with true. rewrite !andb_true_r.
+        assert (i = 37 \/ i = 36 \/ i < 36) as [->|[->|Hlt]] by lia.
+        -- unfold aspec. cbn [Nat.ltb Nat.leb Nat.eqb last_bid_r]. rewrite LB, Hp. reflexivity.
+        -- unfold aspec. cbn [Nat.ltb Nat.leb Nat.eqb last_bid_r]. rewrite LB, Hp. reflexivity.
+        -- replace (i =? 37) with false by (symmetry; apply Nat.eqb_neq; lia).
+           replace (i =? 36) with false by (symmetry; apply Nat.eqb_neq; lia).
+           rewrite aspec_nonbid by (auto; lia). apply AV; lia.
+      * rewrite AV by lia. unfold aspec. cbn [last_bid_r]. rewrite LB. reflexivity.
+    + rewrite (I_lbr d v s I), (I_cx d v s I).
+      destruct (last_bid_r (rhist s)) as [[j b]|] eqn:LB; cbn [option_map fst].
+      * rewrite !nth_set_nth, !length_set_nth, AL.
+        change (37 <? 38) with true. change (36 <? 38) with true. rewrite !andb_true_r.
+        assert (i = 37 \/ i = 36 \/ i < 36) as [->|[->|Hlt]] by lia.
+        -- unfold aspec. cbn [Nat.ltb Nat.leb Nat.eqb last_bid_r]. rewrite LB, Hp. reflexivity.
+        -- unfold aspec. cbn [Nat.ltb Nat.leb Nat.eqb last_bid_r]. rewrite LB, Hp. reflexivity.
+        -- replace (i =? 37) with false by (symmetry; apply Nat.eqb_neq; lia).
+           replace (i =? 36) with false by (symmetry; apply Nat.eqb_neq; lia).
+           rewrite aspec_nonbid by (auto; lia). apply AV; lia.
+      * rewrite AV by lia. unfold aspec. cbn [last_bid_r]. rewrite LB. reflexivity.
+  - intros sd st'. rewrite step_decl_tab, step_rhist, first_namer_cons_r, <- (I_tab d v s I).
+    rewrite <- Hp. destruct c as [l st| | |];
+      try (cbn [names]; rewrite andb_false_r; destruct (decl_tab s sd st'); reflexivity).
+    cbn [names].
+    destruct (decl_tab s (side_of p) st) eqn:T.
+    + destruct (decl_tab s sd st') eqn:T2; [reflexivity|].
+      destruct (side_beq (side_of p) sd && strain_beq st st') eqn:Q; [|reflexivity].
+      apply andb_prop in Q. destruct Q as [Q1 Q2].
+      apply side_beq_true in Q1. apply strain_beq_true in Q2. subst. congruence.
+    + rewrite (side_beq_sym sd), (strain_beq_sym st').
+      destruct (side_beq (side_of p) sd && strain_beq st st') eqn:Q.
+      * apply andb_prop in Q. destruct Q as [Q1 Q2].
+        apply side_beq_true in Q1. apply strain_beq_true in Q2. subst. rewrite T. reflexivity.
+      * destruct (decl_tab s sd st'); reflexivity.
+  - intros q. rewrite step_rphist, step_rhist, pick_cons_r, <- (I_ph d v s I), Hp. reflexivity.
+Qed.
+
+(* ------------------------------------------------------------------ *)
+(* Part 8: reachable states satisfy the invariant                       *)
+(* ------------------------------------------------------------------ *)
+
+Lemma Inv_offer : forall d v s c, Inv d v s -> Inv d v (offer s c).
+Proof.
+  intros d v s c I. unfold offer. rewrite take_bid_eq.
+  destruct (active s) as [p|] eqn:A; [|exact I].
+  destruct (nth (call_idx c) (avail s) false) eqn:L; cbn [negb]; [|exact I].
+  destruct (fin s c) eqn:F; cbn [fst].
+  - apply Inv_finish; assumption.
+  - apply Inv_step; assumption.
+Qed.
+
+Lemma Inv_fold : forall d v offers s, Inv d v s -> Inv d v (fold_left offer offers s).
+Proof.
+  induction offers as [|c r IH]; intros s I; [exact I|].
+  cbn [fold_left]. apply IH. apply Inv_offer. exact I.
+Qed.
+
+Lemma Inv_reach : forall d v offers, Inv d v (reach d v offers).
+Proof. intros. unfold reach. apply Inv_fold. apply Inv_init. Qed.
+
+(* ------------------------------------------------------------------ *)
+(* Part 9: the listed statements                                        *)
+(* ------------------------------------------------------------------ *)
+
+(* ---- C01 ---- *)
+Lemma vector_is_legal_set : forall d v offers c,
+  active (reach d v offers) <> None ->
+  nth (call_idx c) (avail (reach d v offers)) false = legal d (hist (reach d v offers)) c.
+Proof. intros d v offers c H. unfold hist. apply (Inv_avail_legal d v); [apply Inv_reach | exact H]. Qed.
+
+Lemma outcome_cases : forall s c,
+  snd (take_bid s c) =
+  match active s with
+  | None => Raises
+  | Some _ => if nth (call_idx c) (avail s) false then (if fin s c then Finished else Ongoing) else Illegal
+  end.
+Proof.
+  intros. rewrite take_bid_eq. destruct (active s); [|reflexivity].
+  destruct (nth _ _ _); cbn [negb]; [|reflexivity]. destruct (fin s c); reflexivity.
+Qed.
+
+Lemma accept_iff_legal : forall d v offers c,
+  active (reach d v offers) <> None ->
+  (snd (take_bid (reach d v offers) c) = Ongoing \/ snd (take_bid (reach d v offers) c) = Finished)
+  <-> legal d (hist (reach d v offers)) c = true.
+Proof.
+  intros d v offers c H. rewrite <- (vector_is_legal_set d v offers c H).
+  rewrite outcome_cases. destruct (active (reach d v offers)); [|congruence].
+  destruct (nth _ _ _).
+  - destruct (fin _ _); split; auto.
+  - split; [intros [?|?]; discriminate | discriminate].
+Qed.
+
+Lemma illegal_iff_not_legal : forall d v offers c,
+  active (reach d v offers) <> None ->
+  snd (take_bid (reach d v offers) c) = Illegal <-> legal d (hist (reach d v offers)) c = false.
+Proof.
+  intros d v offers c H. rewrite <- (vector_is_legal_set d v offers c H).
+  rewrite outcome_cases. destruct (active (reach d v offers)); [|congruence].
+  destruct (nth _ _ _).
+  - destruct (fin _ _); split; discriminate.
+  - split; reflexivity.
+Qed.
+
+Lemma rejected_is_noop : forall s c, snd (take_bid s c) = Illegal -> fst (take_bid s c) = s.
+Proof.
+  intros s c. rewrite take_bid_eq. destruct (active s); [|reflexivity].
+  destruct (nth _ _ _); cbn [negb]; [|reflexivity].
+  destruct (fin s c); cbn [snd]; intros H; discriminate H.
+Qed.
+
+Lemma accepted_appends : forall s c,
+  snd (take_bid s c) = Ongoing \/ snd (take_bid s c) = Finished ->
+  hist (fst (take_bid s c)) = hist s ++ [c].
+Proof.
+  intros s c. rewrite take_bid_eq. destruct (active s); [|cbn [snd]; intros [?|?]; discriminate].
+  destruct (nth _ _ _); cbn [negb]; [|cbn [snd]; intros [?|?]; discriminate].
+  destruct (fin s c); cbn [fst]; intros _; unfold hist.
+  - reflexivity.
+  - rewrite step_rhist. reflexivity.
+Qed.
+
+Lemma avail_length : forall d v offers, length (avail (reach d v offers)) = 38.
+Proof. intros. apply (I_avlen d v). apply Inv_reach. Qed.
+
+(* ---- C02 ---- *)
+Lemma turn : forall d v offers,
+  active (reach d v offers) =
+  if ended (hist (reach d v offers)) then None else Some (caller d (length (hist (reach d v offers)))).
+Proof.
+  intros. unfold hist, caller. rewrite ended_rev, rev_length.
+  apply (I_active d v). apply Inv_reach.
+Qed.
+
+Lemma personal_histories : forall d v offers p,
+  phist (reach d v offers) p = pick d p (hist (reach d v offers)).
+Proof.
+  intros. unfold phist, hist. rewrite (I_ph d v _ (Inv_reach d v offers)).
+  apply rev_involutive.
+Qed.
+
+Lemma wf_app_not_ended : forall d a b, wf d (a ++ b) -> a <> [] -> ended_r b = false.
+Proof.
+  induction a as [|x a IH]; intros b W N; [congruence|].
+  cbn [app wf] in W. destruct W as (_ & E & W).
+  destruct a as [|y a]; [exact E|]. apply IH; [exact W | discriminate].
+Qed.
+
+Lemma no_proper_prefix_ended : forall d v offers pre suf,
+  hist (reach d v offers) = pre ++ suf -> suf <> [] -> ended pre = false.
+Proof.
+  intros d v offers pre suf H N.
+  pose proof (I_wf d v _ (Inv_reach d v offers)) as W.
+  unfold hist in H. apply (f_equal (@rev call)) in H.
+  rewrite rev_involutive, rev_app_distr in H. rewrite H in W.
+  rewrite <- (rev_involutive pre). rewrite ended_rev.
+  apply (wf_app_not_ended d (rev suf)); [exact W|].
+  intro Q. apply N. rewrite <- (rev_involutive suf), Q. reflexivity.
+Qed.
+
+Lemma after_end : forall s c, active s = None -> take_bid s c = (s, Raises).
+Proof. intros s c H. rewrite take_bid_eq, H. reflexivity. Qed.
+
+Lemma ended_snoc : forall rh c, ended (rev rh ++ [c]) = ended_r (c :: rh).
+Proof. intros. rewrite <- ended_rev. reflexivity. Qed.
+
+Lemma finished_iff_ended : forall d v offers c,
+  snd (take_bid (reach d v offers) c) = Finished <->
+  (active (reach d v offers) <> None /\ legal d (hist (reach d v offers)) c = true /\
+   ended (hist (reach d v offers) ++ [c]) = true).
+Proof.
+  intros d v offers c.
+  pose proof (Inv_reach d v offers) as I. set (s := reach d v offers) in *.
+  rewrite outcome_cases. unfold hist. rewrite ended_snoc.
+  destruct (active s) as [p|] eqn:A.
+  2:{ split; [discriminate | intros (N & _); congruence]. }
+  rewrite <- (Inv_avail_legal d v s c I) by congruence.
+  destruct (Inv_active_some d v s p I A) as [E Hp].
+  destruct (nth _ _ _).
+  2:{ split; [discriminate | intros (_ & Q & _); discriminate]. }
+  destruct (fin s c) eqn:F.
+  - split; [intros _|reflexivity]. split; [discriminate|split; [reflexivity|]].
+    assert (c = Pass) by (destruct c; try discriminate F; reflexivity). subst c.
+    rewrite fin_finc in F. rewrite <- (finc_ended d _ (I_wf d v s I) E). exact F.
+  - split; [discriminate|]. intros (_ & _ & Q). exfalso.
+    rewrite (ended_step d s c (I_wf d v s I) E F) in Q. discriminate.
+Qed.
+
+(* ---- C03 ---- *)
+Lemma recent_split : forall rh i b, last_bid_r rh = Some (i, b) ->
+  skipn (S i) (rev rh) = rev (recent rh).
+Proof.
+  induction rh as [|c r IH]; intros i b H; [discriminate|].
+  assert (G : forall x, is_bid x = false -> last_bid_r r = Some (i, b) ->
+              skipn (S i) (rev r ++ [x]) = rev (recent r) ++ [x]).
+  { intros x _ H'. rewrite <- (IH i b H').
+    assert (S i <= length (rev r)).
+    { rewrite rev_length. clear - H'. revert i b H'. induction r as [|y r IHr]; intros i b H; [discriminate|].
+      destruct y; cbn [last_bid_r] in H; cbn [length];
+        try (specialize (IHr i b H); lia). inversion H. lia. }
+    rewrite skipn_app. replace (S i - length (rev r)) with 0 by lia. reflexivity. }
+  destruct c; cbn [last_bid_r] in H; cbn [rev recent].
+  - inversion H; subst. rewrite skipn_app, rev_length.
+    replace (S (length r) - length r) with 1 by lia.
+    rewrite skipn_all2 by (rewrite rev_length; lia). reflexivity.
+  - apply G; auto.
+  - apply G; auto.
+  - apply G; auto.
+Qed.
+
+Lemma existsb_rev : forall (f : call -> bool) l, existsb f (rev l) = existsb f l.
+Proof.
+  intros f l. induction l as [|x l IH]; [reflexivity|].
+  cbn [rev existsb]. rewrite existsb_app, IH. cbn [existsb]. rewrite orb_false_r. apply orb_comm.
+Qed.
+
+Lemma contract_at_end : forall d v offers,
+  active (reach d v offers) = None ->
+  contract_of (reach d v offers) = Some (contract_spec d v (hist (reach d v offers))).
+Proof.
+  intros d v offers A.
+  pose proof (Inv_reach d v offers) as I. set (s := reach d v offers) in *.
+  unfold contract_of, contract_spec, hist, last_bid_of. rewrite A, rev_involutive.
+  rewrite (I_lb d v s I), (I_lbr d v s I), (I_vul d v s I).
+  destruct (last_bid_r (rhist s)) as [[i [l st]]|] eqn:LB; cbn [option_map fst snd]; [|reflexivity].
+  rewrite (recent_split _ _ _ LB), !existsb_rev.
+  rewrite (I_cx d v s I), (I_cxx d v s I), (I_tab d v s I). reflexivity.
+Qed.
+
+Lemma no_contract_before_end : forall d v offers,
+  active (reach d v offers) <> None -> contract_of (reach d v offers) = None.
+Proof.
+  intros d v offers H. unfold contract_of. destruct (active (reach d v offers)); congruence.
+Qed.
+
+Lemma redouble_is_of_own_sides_bid : forall d v offers,
+  let s := reach d v offers in
+  active s <> None -> legal d (hist s) Rdbl = true ->
+  exists i b, last_bid_of (hist s) = Some (i, b) /\ opponents (caller d i) (caller d (length (hist s))) = false.
+Proof.
+  intros d v offers s A L.
+  pose proof (Inv_reach d v offers) as I. fold s in I.
+  unfold hist in *. unfold last_bid_of, caller. rewrite rev_involutive, rev_length.
+  rewrite legal_rev in L.
+  destruct (last_bid_r (rhist s)) as [[i b]|] eqn:LB.
+  - exists i, b. split; [reflexivity|].
+    rewrite (legalR_spec d _ _ i b (I_wf d v s I) LB) in L.
+    apply andb_prop in L. destruct L as [_ L].
+    rewrite opp_same_side, L. reflexivity.
+  - rewrite (legalR_none d _ _ (I_wf d v s I) LB) in L. discriminate.
+Qed.
